@@ -5,8 +5,10 @@ PROP = {'technique': 'Lean backing-array heap model of WithAttrs for every growt
  'module': 'GolibsVerif.Theorems.C19',
  'namespace': 'GolibsVerif.C19',
  'rule': 'C19.tree: scripts of WithAttrs derivations (depth <= 5, sibling fan-out), Handle and Enabled calls over records whose attributes '
-         'were added in arbitrary AddAttrs chunks; non-trivial = at least one Handle and one of: two children of one parent / depth >= 2 / '
-         'the same Record value handled twice / a record with a shared back slice / JSON escapes in the line. C19.conc: G goroutines x '
+         'were added in arbitrary AddAttrs chunks, about half of the roots made from a *slog.LevelVar with Set calls between the other '
+         'calls; non-trivial = at least one Handle and one of: two children of one parent / depth >= 2 / '
+         'the same Record value handled twice / a record with a shared back slice / JSON escapes in the line / Enabled asked after a Set '
+         'of the LevelVar the root was made from. C19.conc: G goroutines x '
          '(K+1) records x R rounds through one writer; non-trivial = >= 2 Handle calls overlapped in real time (measured). C19.jsonenc: '
          'the encoder model against encoding/json (all counted). distinct = distinct case line',
  'trusted': ['contract TEXT-1 (slog.TextHandler writes exactly one newline-terminated valid-UTF-8 line, a function of record and '
@@ -23,7 +25,9 @@ PROP = {'technique': 'Lean backing-array heap model of WithAttrs for every growt
  'level_text': 'Lean theorems about an executable model of JSONHybridHandler on an explicit backing-array heap: attribute accumulation for '
                'every derivation tree and EVERY growth policy of append (attrs_path, sibling_isolation, policy_independent), one Handle = '
                'reference line (handle_spec, same_record_twice), line shape/severity/message (one_line_two_fields, severity_spec; JSON '
-               'round trip proved for the encoder model), Enabled, and an inductive invariant over all interleavings of Handle calls '
+               'round trip proved for the encoder model), Enabled on every node of every tree with Set calls on a *slog.LevelVar under both '
+               'readings of the configured level (enabled_derived: the value at construction, what the code does; enabled_derived_dyn: the '
+               'current value; tree_consistent: all nodes answer alike), and an inductive invariant over all interleavings of Handle calls '
                'sharing one writer (encoder_locked, pool_exclusive, no_interleave, all_lines_once); the skeleton of '
                'Handle/WithAttrs/Enabled/newJSONHybridMessage is re-extracted from the source on every run and proved equal to the one the '
                'models were written against (skel_handle, skel_handle_order, skel_withAttrs, skel_enabled_severity); tied to the Go code '
